@@ -83,7 +83,7 @@ def programs(tier, seed):
     if tier == "quick":
         aprofs = {"try_join_async": [((1, 2), 0), ((2, 1, 1), 0)], "try_join_async_spawn": [((2, 1), 0)]}
     else:
-        aprofs = {"try_join_async": [((1, 2), 1), ((2, 2), 1), ((2, 1, 1), 1), ((2, 1, 2), 0), ((3, 1), 0)], "try_join_async_spawn": [((2, 1), 1), ((2, 2), 0)]}
+        aprofs = {"try_join_async": [((1, 2), 1), ((2, 2), 0), ((2, 1, 1), 1), ((2, 1, 2), 0), ((3, 1), 0)], "try_join_async_spawn": [((2, 1), 1), ((2, 2), 0)]}
     for macro, lst in aprofs.items():
         for prof, gates in lst:
             i += 1
